@@ -33,6 +33,9 @@ CONSTANTS
     Cap,       \* Cap[c]   : channel capacity
     Writer,    \* Writer[c]: the process that sends on c (0 = nobody)
     Readers,   \* Readers[c]: set of processes that ever receive from c
+    StrictIn,  \* StrictIn[p] (Operate/Operate3): the operands that are indicator values in their own right (not an
+               \* explicit delayed copy of a raw input or of a stream another operand derives from): they must all
+               \* refer to the same input position - computed from the recorded graph by tools/netgen.py
     Unsafe,    \* channels with several readers that are not inputs of a verified Xma unit
     MultiRead, \* all channels with several readers
     LenVecs,   \* set of input-length vectors (one entry per source) = set of initial states
@@ -64,11 +67,18 @@ Max(a, b) == IF a > b THEN a ELSE b
 -----------------------------------------------------------------------------
 (* Tokens *)
 
-NoTok   == [hi |-> -2, fs |-> {}, fill |-> FALSE]
-ZeroTok == [hi |-> -1, fs |-> {}, fill |-> FALSE]   \* Go zero value read from a closed channel
-FillTok == [hi |-> -1, fs |-> {}, fill |-> TRUE]    \* the fill value of a Shift
-Comb(a, b) == [hi |-> Max(a.hi, b.hi), fs |-> a.fs \cup b.fs, fill |-> a.fill /\ b.fill]
-SrcTok(p, i) == [hi |-> i, fs |-> {Lab[p]}, fill |-> FALSE]
+\* mis: somewhere upstream two indicator values referring to DIFFERENT input positions were combined
+NoTok   == [hi |-> -2, fs |-> {}, fill |-> FALSE, mis |-> FALSE]
+ZeroTok == [hi |-> -1, fs |-> {}, fill |-> FALSE, mis |-> FALSE]   \* Go zero value read from a closed channel
+FillTok == [hi |-> -1, fs |-> {}, fill |-> TRUE, mis |-> FALSE]    \* the fill value of a Shift
+Comb(a, b) == [hi |-> Max(a.hi, b.hi), fs |-> a.fs \cup b.fs, fill |-> a.fill /\ b.fill, mis |-> a.mis \/ b.mis]
+SrcTok(p, i) == [hi |-> i, fs |-> {Lab[p]}, fill |-> FALSE, mis |-> FALSE]
+\* position a strict operand refers to (-1: not strict / a constant)
+StrictHi(p, k, tok) == IF k \in StrictIn[p] THEN tok.hi ELSE -1
+\* combine operand k of a join with what was combined so far (sh = position the strict operands so far refer to)
+Clash(sh, x) == sh >= 0 /\ x >= 0 /\ sh # x
+Join(p, k, sh, acc, tok) == [Comb(acc, tok) EXCEPT !.mis = acc.mis \/ tok.mis \/ Clash(sh, StrictHi(p, k, tok))]
+NewSh(p, k, sh, tok) == IF StrictHi(p, k, tok) >= 0 THEN StrictHi(p, k, tok) ELSE sh
 Relabel(p, tok) == IF Lab[p] = "" THEN tok ELSE [tok EXCEPT !.fs = {Lab[p]}]
 
 Consumers == {p \in Procs : Kind[p] \in {"Sink", "Template"}}
@@ -132,10 +142,10 @@ AfterOk(p, tok) ==
     [] k = "Last" -> L("recv", 0, NoTok, LastN(Append(l.r, tok), Par[p]))
     [] k = "Dup" -> IF Len(Outs[p]) > 0 THEN L("send", 1, tok, <<>>) ELSE L("recv", 0, NoTok, <<>>)
     [] k = "Echo" -> L("send", 0, tok, LastN(Append(l.r, tok), Par[p]))
-    [] k \in {"Operate", "Operate3"} /\ pc = "ra" -> L("rb", 0, tok, <<>>)
-    [] k = "Operate" /\ pc = "rb" -> L("send", 0, Comb(l.v, tok), <<>>)
-    [] k = "Operate3" /\ pc = "rb" -> L("rc3", 0, Comb(l.v, tok), <<>>)
-    [] k = "Operate3" /\ pc = "rc3" -> L("send", 0, Comb(l.v, tok), <<>>)
+    [] k \in {"Operate", "Operate3"} /\ pc = "ra" -> L("rb", StrictHi(p, 1, tok), tok, <<>>)   \* i holds sh
+    [] k = "Operate" /\ pc = "rb" -> L("send", 0, Join(p, 2, l.i, l.v, tok), <<>>)
+    [] k = "Operate3" /\ pc = "rb" -> L("rc3", NewSh(p, 2, l.i, tok), Join(p, 2, l.i, l.v, tok), <<>>)
+    [] k = "Operate3" /\ pc = "rc3" -> L("send", 0, Join(p, 3, l.i, l.v, tok), <<>>)
     [] k \in {"Operate", "Operate3"} /\ pc \in {"da", "db", "dc3"} -> l
     [] k = "XmaCore" /\ pc = "seed" -> L("send0", 0, tok, <<>>)
     [] k = "XmaCore" /\ pc = "xrecv" -> L("send", 0, tok, <<>>)
@@ -356,6 +366,9 @@ ActFill  == \A s \in Sinks : \A k \in 1..Len(out[s]) : (k <= W => out[s][k].fill
 ActAlign == \A s \in Sinks : \A k \in 1..Len(out[s]) : (~out[s][k].fill => out[s][k].hi = k - 1)
 ActNoLook == \A s \in Sinks : \A k \in 1..Len(out[s]) : out[s][k].hi <= k - 1
 
+\* C02 (alignment of joins): no delivered value mixes indicator values of different input positions
+JoinAligned == \A s \in Sinks : \A k \in 1..Len(out[s]) : ~out[s][k].mis
+
 \* C14 (reports): no column ran out, nothing left in any channel
 Leftover == {c \in Chans : Len(buf[c]) > 0}
 RanOut == {p \in Consumers : ran[p] > 0}
@@ -378,7 +391,7 @@ Summary ==
    ran |-> ran,
    leftover |-> [c \in Leftover |-> Len(buf[c])],
    open |-> {c \in Chans : ~closed[c]},
-   countOK |-> CountOK, sameLen |-> SameLen, aligned |-> Aligned, noLook |-> NoLookAhead,
+   countOK |-> CountOK, sameLen |-> SameLen, aligned |-> Aligned, noLook |-> NoLookAhead, joinAligned |-> JoinAligned,
    actCount |-> ActCount, actFill |-> ActFill, actAlign |-> ActAlign, actNoLook |-> ActNoLook,
    colAligned |-> ColAligned, colBalanced |-> ColumnsBalanced, closeCol |-> CloseColumn]
 
